@@ -1,6 +1,6 @@
 SPECIFICATION Spec
 CONSTANTS
-  PosIds = {0, 2, 301, 5005}
+  PosIds = {0, 2, 100, 101, 5005}
   ClassSet = {"a", "amp", "lt", "gt", "quot", "apos", "sp", "cjk"}
   MaxChars = 3
 INVARIANTS Refines Dump
